@@ -220,12 +220,12 @@ func payloadID(p []byte) int {
 
 type outListener struct{}
 
-func (outListener) Init(*slog.Logger) error        { return nil }
-func (outListener) Serve(listeners.EstablishFn)    {}
-func (outListener) ID() string                     { return "mem" }
-func (outListener) Address() string                { return "mem" }
-func (outListener) Protocol() string               { return "mem" }
-func (outListener) Close(c listeners.CloseFn)      { c("mem") }
+func (outListener) Init(*slog.Logger) error     { return nil }
+func (outListener) Serve(listeners.EstablishFn) {}
+func (outListener) ID() string                  { return "mem" }
+func (outListener) Address() string             { return "mem" }
+func (outListener) Protocol() string            { return "mem" }
+func (outListener) Close(c listeners.CloseFn)   { c("mem") }
 
 // pump decodes what has arrived on the connection since the last call
 func (r *outRun) pump() {
@@ -449,7 +449,9 @@ func RunOutPath(sc OutScenario) (lines []OutLine) {
 		}
 		return r.rdG.Load()
 	}
-	moves := func(g string) bool { return g != "" && g != "blocked" && g != "idle" && g != "queued" && g != "dropped" }
+	moves := func(g string) bool {
+		return g != "" && g != "blocked" && g != "idle" && g != "queued" && g != "dropped"
+	}
 	for i, st := range sc.Steps {
 		ln := OutLine{Ev: "step", Name: sc.Name, Cap: sc.Cap, I: i + 1, W: st.W, G: st.G, OG: st.OG}
 		var got map[string]string
